@@ -415,9 +415,12 @@ def run(rep):
                          for p in ds['pieces']]
                 rows1 = [tuple(float('nan') if v is None else float(v.v) for v in _tb(p[other]))
                          for p in ds['pieces']]
-                check_read(rep, [ds], 'single', None, boxes_for(rep.rng, rows0, nbox), *acc)
+                quick = tier == 'quick'
+                b0 = boxes_for(rep.rng, rows0, nbox)
+                b0 = b0[:5] + rep.rng.sample(b0[5:], 7 if quick else len(b0) - 5)
+                check_read(rep, [ds], 'single', None, b0, *acc)
                 check_read(rep, [ds], 'single', other,
-                           rep.rng.sample(boxes_for(rep.rng, rows1, nbox), 6 if tier == 'quick' else 16), *acc)
+                           rep.rng.sample(boxes_for(rep.rng, rows1, nbox), 4 if quick else 16), *acc)
                 # two datasets by list / glob every third dataset
                 if si % 3 == 0:
                     spec2 = {**spec, 'seed': spec['seed'] + 1, 'tag': 'b', 'voffset': 100000,
@@ -426,10 +429,10 @@ def run(rep):
                     ds2 = build_dataset(rep, s2, spec2)
                     if ds2 is not None:
                         # glob expansion is alphabetical: dsa* before dsb*
-                        b2 = rep.rng.sample(boxes_for(rep.rng, rows0, nbox), 5)
+                        b2 = rep.rng.sample(boxes_for(rep.rng, rows0, nbox), 3 if quick else 8)
                         check_read(rep, [ds, ds2], 'list', rep.rng.choice([None, other]), b2, *acc)
-                        check_read(rep, [ds, ds2], 'glob', None, b2[:3], *acc)
-                        check_read(rep, [ds2, ds], 'list', None, b2[:2], *acc)
+                        check_read(rep, [ds, ds2], 'glob', None, b2[:2], *acc)
+                        check_read(rep, [ds2, ds], 'list', None, b2[:1], *acc)
     # model comparisons
     bad = C.coq_mismatches(IMPORTS, RB_FN, RB_CASE, RB_RES, rb[0], rb[1], shard=40)
     seen = set()
